@@ -6,6 +6,7 @@ import (
 
 	"github.com/bluenviron/gomavlib/v3/pkg/dialect"
 	"github.com/bluenviron/gomavlib/v3/pkg/frame"
+	"github.com/bluenviron/gomavlib/v3/pkg/message"
 
 	"verifharness/hx"
 )
@@ -128,7 +129,34 @@ func genC05(o *hx.Out, tier string) {
 				}
 			}
 			var fr frame.Frame
-			if withD && r.Intn(2) == 0 {
+			if withD && r.Intn(5) == 0 {
+				// a frame of a dialect message with a correct checksum whose payload has the wrong
+				// length (v1: any other length; v2: longer than the message): a parse error, not a
+				// transport error, and the frames after it are still read
+				proto := d.Messages[r.Intn(len(d.Messages))]
+				full := len(drw.GetMessage(proto.GetID()).Write(hx.RandMessage(r, proto, 1), true).Payload)
+				n := full + 1 + r.Intn(3)
+				v2 := r.Intn(2) == 0
+				if !v2 && r.Intn(2) == 0 && full > 1 {
+					n = 1 + r.Intn(full-1)
+				}
+				if n > 255 {
+					n = 255
+				}
+				pl := make([]byte, n)
+				r.Read(pl)
+				pl[n-1] |= 1
+				raw := &message.MessageRaw{ID: proto.GetID(), Payload: pl}
+				if v2 {
+					f := &frame.V2Frame{SequenceNumber: byte(r.Intn(256)), SystemID: byte(r.Intn(256)), ComponentID: byte(r.Intn(256)), Message: raw}
+					f.Checksum = f.GenerateChecksum(drw.GetMessage(proto.GetID()).CRCExtra())
+					fr = f
+				} else {
+					f := &frame.V1Frame{SequenceNumber: byte(r.Intn(256)), SystemID: byte(r.Intn(256)), ComponentID: byte(r.Intn(256)), Message: raw}
+					f.Checksum = f.GenerateChecksum(drw.GetMessage(proto.GetID()).CRCExtra())
+					fr = f
+				}
+			} else if withD && r.Intn(2) == 0 {
 				fr = validFrame(r, drw, hx.RandMessage(r, d.Messages[r.Intn(len(d.Messages))], 2), r.Intn(2) == 0, nil)
 			} else {
 				fr = randFrame(r, r.Intn(2) == 0, r.Intn(2) == 0)
